@@ -289,7 +289,7 @@ def catalog():
     add("focal_mean", "focal", "mean", _one("elev", nan=True),
         lambda p, ins: ((ins[0],), dict({k: v for k, v in p.items() if k != "excludes"},
                                         **({"excludes": [float(e) for e in p["excludes"]]} if "excludes" in p else {}))),
-        variants=[{}, {"passes": 2}, {"excludes": [4.0, 7.0]}])
+        variants=[{}, {"passes": 2}, {"excludes": [4.0, 7.0]}, {"passes": 0}])
     add("focal_apply", "focal", "apply", _one("elev"),
         lambda p, ins: ((ins[0], kernel(p.get("kernel", "cross3"))),
                         ({"func": getattr(M["focal"], p["func"])} if "func" in p else {})),
@@ -391,8 +391,9 @@ def mk_dataset(dtype, layout, backend, seed=0):
     return d, mems
 
 
-def build_inputs(entry, dtype, layout, backend, seed=0, h=H, w=W):
-    """-> list of (role, xarray object, [mem arrays])"""
+def build_inputs(entry, dtype, layout, backend, seed=0, h=H, w=W, finite=False):
+    """-> list of (role, xarray object, [mem arrays]).  finite=True: no NaN / inf anywhere (and non-integral float values):
+    in-place sorts, cumulative operations and normalisations only bite on all-finite, unsorted inputs."""
     np = _np()
     out = []
     for role, kind, opts in entry["ins"]:
@@ -403,8 +404,8 @@ def build_inputs(entry, dtype, layout, backend, seed=0, h=H, w=W):
         dt = dtype
         if opts.get("dtype") == "int" and np.dtype(dtype).kind == "f":
             dt = "int32"
-        a, m = mk_raster(kind, dt, layout, backend, seed=seed + opts.get("seed", 0), nan=opts.get("nan", False),
-                         name=role, chunks=opts.get("chunks", (4, 4) if h == H else (h // 3 + 1, w // 2 + 1)), h=h, w=w)
+        a, m = mk_raster(kind, dt, layout, backend, seed=seed + opts.get("seed", 0),
+                         nan=opts.get("nan", False) and not finite, frac=finite, name=role, chunks=opts.get("chunks", (4, 4) if h == H else (h // 3 + 1, w // 2 + 1)), h=h, w=w)
         out.append((role, a, [m]))
     return out
 
@@ -412,7 +413,7 @@ def build_inputs(entry, dtype, layout, backend, seed=0, h=H, w=W):
 def catalog_meta():
     """Pure-python view for the drivers: {name: {"nvariants": n, "backends": [...], "nin": k}}"""
     C, _ = catalog()
-    return {k: {"mod": v["mod"], "nvariants": len(v["variants"]), "variants": v["variants"], "variant_backends": v.get("variant_backends", {}),
+    return {k: {"mod": v["mod"], "nan_inputs": any(o.get("nan") for _r, _k, o in v["ins"]), "nvariants": len(v["variants"]), "variants": v["variants"], "variant_backends": v.get("variant_backends", {}),
                 "backends": (v.get("only") or {}).get("backend", BACKENDS), "nin": len(v["ins"])}
             for k, v in C.items()}
 
